@@ -10,6 +10,7 @@ import Driver.ConfigEng
 import Driver.RateLimitEng
 import Driver.ValidateEng
 import Driver.CodecEng
+import Driver.RpcEng
 
 open Driver
 
@@ -36,5 +37,6 @@ def main (args : List String) : IO UInt32 := do
   | ["config"] => loop stdin stdout ConfigEng.step (); return 0
   | ["ratelimit"] => loop stdin stdout RateLimitEng.step none; return 0
   | ["validate"] => loop stdin stdout ValidateEng.step (); return 0
+  | ["rpc"] => loop stdin stdout RpcEng.step {}; return 0
   | ["codec"] => loop stdin stdout (fun (_ : Unit) l => ((), CodecEng.step l)) (); return 0
   | _ => IO.eprintln "usage: kyro_driver <engine>"; return 2
